@@ -664,6 +664,22 @@ class AS241:
         v = self.tail(r)
         return -v if reg == 'L' else v
 
+    def value(self, reg, p):
+        if reg == 'C':
+            return self.central(p)
+        return -self.tail(p) if reg == 'L' else self.tail(1 - p)
+
+    def matches_near(self, reg, lo, hi, z):
+        """is z the value of formula `reg` at SOME p of [lo, hi]?  (each formula is monotone in p; used when the uniform
+        number is only known up to the rounding of the Halton construction)"""
+        if self.matches(reg, lo, z) or self.matches(reg, hi, z):
+            return True
+        try:
+            a, b = self.value(reg, lo), self.value(reg, hi)
+        except (ValueError, ZeroDivisionError, OverflowError):
+            return False
+        return finite(a) and finite(b) and min(a, b) <= z <= max(a, b)
+
     def candidates(self, p):
         """value of each of the three formulas at p (None where not computable)"""
         out = {}
@@ -875,12 +891,14 @@ def run_impl(ctx, mode, cases, per=None):
     return res
 
 
-def oracle_type_case(ctx, rep, ref, rec, c, r, peers):
+def oracle_type_case(ctx, rep, ref, rec, c, r, peers, extra=None, how_prefix=''):
     """Direct statements of the property on the implementation's output for one catalogued type.
     rec: extracted catalogue record; c: case; r: implementation result; peers: {key: result} same size & run."""
     key, ss, n = c['key'], c['ss'], c['n']
-    how = f"np.random.seed({c['seed']}); native_random_number_generators['{key}'].generator({ss}, {n})"
+    how = how_prefix + f"np.random.seed({c['seed']}); native_random_number_generators['{key}'].generator({ss}, {n})"
     wit = {'key': key, 'sample_size': ss, 'number_of_draws': n, 'seed': c['seed']}
+    if extra:
+        wit.update(extra)
     if not r.get('ok'):
         rep(f'C11/shape/{key}-exception', f'{key}: generator raised {r.get("exc")}', wit, 'an array', r, how)
         return
@@ -942,7 +960,7 @@ def oracle_type_case(ctx, rep, ref, rec, c, r, peers):
                     good = abs(F(uin[j]) - phi) <= tol
                     obs = uin[j]
                 else:
-                    good = any(ref.matches(rg, float(phi), gflat[j]) for rg in 'CLH')
+                    good = any(ref.matches_near(rg, float(phi - tol - U53), float(phi + tol + U53), gflat[j]) for rg in 'CLH')
                     obs = gflat[j]
             else:
                 want = 2 * phi - 1 if adv['symmetric'] else phi
@@ -985,7 +1003,7 @@ def oracle_type_case(ctx, rep, ref, rec, c, r, peers):
                     f'draws.get_normal_wichura_draws(1, 1, uniform_numbers=np.array([{uin[j]!r}]))')
 
 
-def model_type_case(batch, rec, c, r):
+def model_type_case(batch, rec, c, r, owner=None):
     """Coq side: the generated catalogue record, fed with the observed RNG output, must reproduce the array.
     Returns a reason string when the case cannot be encoded (RNG used differently from the record)."""
     ss, n, k = c['ss'], c['n'], c['k']
@@ -1013,7 +1031,7 @@ def model_type_case(batch, rec, c, r):
     if rec['symmetric']:
         t = sym_tol(t)
     usq = '[' + ';\n '.join(coq_qlist(ch) for ch in chunks(us)) + ']' if us else '[]'
-    owner = (c['key'], ss, n)
+    owner = owner or (c['key'], ss, n)
     if rec['normal']:
         w = rr['wichura']
         if len(w) == 1 and w[0]['u'] is not None:
@@ -1097,6 +1115,56 @@ def stream_types(ctx, rep, ref, cat, sizes, coq=True, tag='types'):
 # =====================================================================================
 # stream: get_halton_draws called directly
 # =====================================================================================
+def check_halton_call(rep, st, batch, owner, c, r, extra=None, how_prefix=''):
+    """one call of get_halton_draws: oracle (exact radical inverse, Fractions) + Coq case (halton_py)"""
+    N = c['ss'] * c['n']
+    how = how_prefix + (f"np.random.seed({c['seed']}); draws.get_halton_draws({c['ss']}, {c['n']}, symmetric={c['symmetric']}, "
+                        f"base={c['base']}, skip={c['skip']}, shuffled={c['shuffled']})")
+    key = f"C11/halton/base{c['base']}-skip{c['skip']}" + ('-sym' if c['symmetric'] else '') + ('-shuffled' if c['shuffled'] else '')
+    if extra:
+        key += '-in-history'
+    wit = dict(c)
+    if extra:
+        wit.update(extra)
+    if not r.get('ok'):
+        rep(key + '-exception', f'get_halton_draws raised {r.get("exc")}', wit, 'an array', r, how)
+        return
+    if r['shape'] != [c['ss'], c['n']] or r['rows'] is None:
+        rep(key + '-shape', f'get_halton_draws returned shape {r["shape"]}', wit, [c['ss'], c['n']], r['shape'], how)
+        return
+    flat = [x for row in r['rows'] for x in row]
+    tol = halton_tol(c['base'], N + c['skip'] + 1)
+    tol_o = sym_tol(tol) if c['symmetric'] else tol
+    want = [radical_inverse(c['base'], j + c['skip'] + 1) for j in range(N)]
+    if c['symmetric']:
+        want = [2 * w - 1 for w in want]
+    if not all(finite(x) for x in flat):
+        rep(key + '-nonfinite', 'get_halton_draws returned a non-finite number', wit, None, None, how)
+        return
+    got = [F(x) for x in flat]
+    if c['shuffled']:
+        got, want2 = sorted(got), sorted(want)
+    else:
+        want2 = want
+    for j in range(N):
+        if abs(got[j] - want2[j]) > tol_o:
+            rep(key, f'get_halton_draws: {"sorted " if c["shuffled"] else ""}element {j} is not the '
+                f'{"2x-1 image of the " if c["symmetric"] else ""}radical inverse in base {c["base"]} after skipping {c["skip"]}',
+                dict(wit, element=j), float(want2[j]), float(got[j]), how)
+            break
+    perm = []
+    if c['shuffled']:
+        if len(r['shuffle']) != 1 or not r['shuffle_ok'] or len(r['shuffle'][0]) != N:
+            st.disagree(wit, 'one np.random.shuffle of the whole sequence', f'{len(r["shuffle"])} shuffles observed')
+            return
+        perm = r['shuffle'][0]
+    elif r['shuffle'] or r['n_uniform']:
+        st.disagree(wit, 'no use of the RNG', f'{len(r["shuffle"])} shuffles, {r["n_uniform"]} uniform calls')
+        return
+    batch.add(owner, f'chk_halton {c["base"]} {N} {c["skip"]} {coq_bool(c["symmetric"])} {coq_bool(c["shuffled"])} '
+                     f'{coq_nlist(perm)} {coq_frac(tol_o)} {c["ss"]} {c["n"]} {coq_qrows(r["rows"])}', 2 * N + 50)
+
+
 def stream_halton(ctx, rep):
     st = ctx.stream('halton', '')
     rng = ctx.sub_rng('halton')
@@ -1117,48 +1185,8 @@ def stream_halton(ctx, rep):
     res = run_impl(ctx, 'halton', cases)
     batch = Batch(ctx, 'halton')
     for i, (c, r) in enumerate(zip(cases, res)):
-        N = c['ss'] * c['n']
-        st.record(c, nontrivial=N + c['skip'] + 1 > c['base'])
-        how = (f"np.random.seed({c['seed']}); draws.get_halton_draws({c['ss']}, {c['n']}, symmetric={c['symmetric']}, "
-               f"base={c['base']}, skip={c['skip']}, shuffled={c['shuffled']})")
-        key = f"C11/halton/base{c['base']}-skip{c['skip']}" + ('-sym' if c['symmetric'] else '') + ('-shuffled' if c['shuffled'] else '')
-        if not r.get('ok'):
-            rep(key + '-exception', f'get_halton_draws raised {r.get("exc")}', c, 'an array', r, how)
-            continue
-        if r['shape'] != [c['ss'], c['n']] or r['rows'] is None:
-            rep(key + '-shape', f'get_halton_draws returned shape {r["shape"]}', c, [c['ss'], c['n']], r['shape'], how)
-            continue
-        flat = [x for row in r['rows'] for x in row]
-        tol = halton_tol(c['base'], N + c['skip'] + 1)
-        tol_o = sym_tol(tol) if c['symmetric'] else tol
-        want = [radical_inverse(c['base'], j + c['skip'] + 1) for j in range(N)]
-        if c['symmetric']:
-            want = [2 * w - 1 for w in want]
-        if not all(finite(x) for x in flat):
-            rep(key + '-nonfinite', 'get_halton_draws returned a non-finite number', c, None, None, how)
-            continue
-        got = [F(x) for x in flat]
-        if c['shuffled']:
-            got, want2 = sorted(got), sorted(want)
-        else:
-            want2 = want
-        for j in range(N):
-            if abs(got[j] - want2[j]) > tol_o:
-                rep(key, f'get_halton_draws: {"sorted " if c["shuffled"] else ""}element {j} is not the '
-                    f'{"2x-1 image of the " if c["symmetric"] else ""}radical inverse in base {c["base"]} after skipping {c["skip"]}',
-                    dict(c, element=j), float(want2[j]), float(got[j]), how)
-                break
-        perm = []
-        if c['shuffled']:
-            if len(r['shuffle']) != 1 or not r['shuffle_ok'] or len(r['shuffle'][0]) != N:
-                st.disagree(c, 'one np.random.shuffle of the whole sequence', f'{len(r["shuffle"])} shuffles observed')
-                continue
-            perm = r['shuffle'][0]
-        elif r['shuffle'] or r['n_uniform']:
-            st.disagree(c, 'no use of the RNG', f'{len(r["shuffle"])} shuffles, {r["n_uniform"]} uniform calls')
-            continue
-        batch.add(i, f'chk_halton {c["base"]} {N} {c["skip"]} {coq_bool(c["symmetric"])} {coq_bool(c["shuffled"])} '
-                     f'{coq_nlist(perm)} {coq_frac(tol_o)} {c["ss"]} {c["n"]} {coq_qrows(r["rows"])}', 2 * N + 50)
+        st.record(c, nontrivial=c['ss'] * c['n'] + c['skip'] + 1 > c['base'])
+        check_halton_call(rep, st, batch, i, c, r)
     out, errs = batch.run()
     for e in errs:
         ctx.stream_broken('halton', 'model evaluation failed: ' + e)
@@ -1167,6 +1195,173 @@ def stream_halton(ctx, rep):
             st.disagree(cases[i], 'halton_py (Coq)', {'first_row': res[i]['rows'][0][:6]})
     if st.disagreements and not any(b['name'] == 'C11/halton' for b in ctx.broken):
         ctx.stream_broken('halton', f'{len(st.disagreements)} disagreements, first: {json.dumps(st.disagreements[0])[:600]}')
+
+
+# =====================================================================================
+# stream: histories -- several calls in ONE process (what a call leaves behind must not change the next)
+# =====================================================================================
+def describe_step(s):
+    if s['kind'] == 'type':
+        return f"np.random.seed({s['seed']}); native_random_number_generators['{s['key']}'].generator({s['ss']}, {s['n']})"
+    return (f"np.random.seed({s['seed']}); draws.get_halton_draws({s['ss']}, {s['n']}, symmetric={s['symmetric']}, "
+            f"base={s['base']}, skip={s['skip']}, shuffled={s['shuffled']})")
+
+
+def gen_histories(ctx, cat, count):
+    rng = ctx.sub_rng('histories')
+    idx = {r['key']: i for i, r in enumerate(cat)}
+    native = {}
+    for r in cat:
+        if r['family'] == 'FHalton':
+            native.setdefault(r['base'], []).append(r['key'])
+
+    def direct(base, ss, n, skip=0, shuffled=False, symmetric=False):
+        return dict(kind='halton', ss=ss, n=n, base=base, skip=skip, symmetric=symmetric, shuffled=shuffled,
+                    seed=rng.randrange(1, 2 ** 31))
+
+    def typ(key, ss, n):
+        return dict(kind='type', key=key, k=idx[key], ss=ss, n=n, seed=rng.randrange(1, 2 ** 31))
+
+    hs = []
+    for b in sorted(native):
+        ks = native[b]
+        # a long shuffled call, then shorter native types of the same base
+        hs.append([direct(b, 4, 25, 0, shuffled=True)] + [typ(k, ss, n) for k, (ss, n) in zip(ks, [(3, 8), (1, 10), (5, 16)])])
+        # a long plain call, a short shuffled one, then a native type and a plain call again
+        hs.append([direct(b, 10, 30, 3), direct(b, 2, 20, 5, shuffled=True), typ(ks[0], 2, 10), direct(b, 5, 5, 0)])
+    hs.append([direct(7, 3, 100), direct(7, 1, 40, 10, shuffled=True, symmetric=True), direct(7, 2, 12, 1)])
+    while len(hs) < count:
+        b = rng.choice([2, 3, 5, 2, 3, 5, 7, 4])
+        steps = []
+        for j in range(rng.randint(2, 4)):
+            if b in native and rng.random() < 0.4:
+                steps.append(typ(rng.choice(native[b]), rng.choice([1, 2, 3, 5]), 2 * rng.randint(1, 20)))
+            else:
+                bb = b if rng.random() < 0.85 else rng.choice([2, 3, 5])
+                steps.append(direct(bb, rng.choice([1, 2, 3, 7]), rng.choice([1, 2, 5, 10, 30, 60]),
+                                    rng.choice([0, 0, 1, 5, 10, 10, 37]), shuffled=rng.random() < 0.45,
+                                    symmetric=rng.random() < 0.25))
+        if rng.random() < 0.5:    # longest first: later calls fit in whatever the first one left behind
+            steps.sort(key=lambda s: -(s['ss'] * s['n'] + s.get('skip', 10)))
+        hs.append(steps)
+    return hs
+
+
+def check_history(ctx, rep, ref, cat, st, batch, hi, steps, h, coq=True):
+    if not h.get('ok') or len(h.get('steps', [])) != len(steps):
+        rep('C11/halton/history-exception', f'a history of generator calls failed: {h.get("exc")} {h.get("msg")}',
+            {'history': steps}, 'arrays', h, ' ; '.join(describe_step(s) for s in steps))
+        return
+    for i, (s, r) in enumerate(zip(steps, h['steps'])):
+        extra = {'history': steps, 'step': i}
+        pre = ('in ONE process: ' + ' ; '.join(describe_step(x) for x in steps[:i]) + ' ; then ') if i else ''
+        if s['kind'] == 'type':
+            rec = cat[s['k']]
+            oracle_type_case(ctx, rep, ref, rec, s, r, {}, extra=extra, how_prefix=pre)
+            why = model_type_case(batch, rec, s, r, owner=(hi, i)) if coq else None
+            if why and why != 'no array':
+                st.disagree({'history': steps, 'step': i}, 'catalogue record', why)
+        else:
+            c = {k: s[k] for k in ('ss', 'n', 'base', 'skip', 'symmetric', 'shuffled', 'seed')}
+            check_halton_call(rep, st, batch, (hi, i), c, r, extra=extra, how_prefix=pre)
+
+
+def stream_histories(ctx, rep, ref, cat, coq=True):
+    st = ctx.stream('halton', '')
+    st.rule += (' | histories: 2-4 calls in one fresh process mixing shuffled / plain get_halton_draws, different lengths '
+                '(shorter after longer), skips, and the native Halton types of the same base; every result checked as a '
+                'single call is')
+    hs = gen_histories(ctx, cat, ctx.n(30, 250))
+    res = run_impl(ctx, 'history', [{'steps': h} for h in hs])
+    batch = Batch(ctx, 'history')
+    for hi, (steps, h) in enumerate(zip(hs, res)):
+        later_same = any(a['kind'] == 'halton' and a['shuffled'] and any(
+            (b.get('base') or cat[b['k']]['base']) == a['base'] for b in steps[i + 1:]) for i, a in enumerate(steps))
+        st.record({'history': [describe_step(s) for s in steps]}, nontrivial=later_same)
+        check_history(ctx, rep, ref, cat, st, batch, hi, steps, h, coq=coq)
+    out, errs = batch.run()
+    for e in errs:
+        ctx.stream_broken('halton', 'model evaluation failed: ' + e)
+    for (hi, i), v in out.items():
+        if v is False:
+            st.disagree({'history': [describe_step(s) for s in hs[hi]], 'step': i}, 'model (Coq) of this call alone',
+                        {'first_row': (res[hi]['steps'][i].get('rows') or [[]])[0][:6]})
+    if st.disagreements and not any(b['name'] == 'C11/halton' for b in ctx.broken):
+        ctx.stream_broken('halton', f'{len(st.disagreements)} disagreements, first: {json.dumps(st.disagreements[0])[:600]}')
+
+
+# =====================================================================================
+# stream: table -- Database.generate_draws gives every NAMED variable the series of ITS type
+# =====================================================================================
+def gen_tables(ctx, cat):
+    rng = ctx.sub_rng('table')
+    keys = [r['key'] for r in cat]
+    halton = [r['key'] for r in cat if r['family'] == 'FHalton']
+    cases = [dict(decl=[['z_unif', 'UNIFORM_HALTON3'], ['a_norm', 'NORMAL_HALTON2']], names=['a_norm', 'z_unif'], ss=4, n=50, seed=11),
+             dict(decl=[['b', 'UNIFORMSYM_HALTON5'], ['c', 'UNIFORM_MLHS_ANTI'], ['a', 'UNIFORM_HALTON2']],
+                  names=['a', 'b', 'c'], ss=3, n=10, seed=12)]
+    for _ in range(ctx.n(14, 120)):
+        m = rng.choice([2, 2, 3])
+        ks = [rng.choice(halton)]
+        while len(ks) < m:
+            k = rng.choice(keys if rng.random() < 0.5 else halton)
+            if k not in ks:
+                ks.append(k)
+        rng.shuffle(ks)
+        stems = rng.sample(['alpha', 'beta', 'gamma', 'omega', 'b_time', 'z_unif', 'a_norm', 'err', 'xi', 'draw1', 'draw2'], m)
+        names_sorted = sorted(stems)
+        ins = list(names_sorted)
+        while ins == names_sorted:
+            rng.shuffle(ins)                    # insertion order of the dict != sorted order
+        decl = [[nm, k] for nm, k in zip(ins, ks)]
+        if rng.random() < 0.75:
+            names = names_sorted                # what biogeme itself passes
+        else:
+            names = list(ins)
+            while names == ins:
+                rng.shuffle(names)
+        cases.append(dict(decl=decl, names=names, ss=rng.choice([1, 2, 3, 5]), n=2 * rng.randint(1, 25),
+                          seed=rng.randrange(1, 2 ** 31)))
+    return cases
+
+
+def check_table(ctx, rep, ref, cat, c, r):
+    recs = {x['key']: x for x in cat}
+    decl = dict((nm, k) for nm, k in c['decl'])
+    call = (f"np.random.seed({c['seed']}); Database('c11', DataFrame with {c['ss']} rows).generate_draws("
+            + '{' + ', '.join(f"'{nm}': '{k}'" for nm, k in c['decl']) + '}' + f", {c['names']}, {c['n']})")
+    if not r.get('ok'):
+        rep('C11/table/exception', f'generate_draws raised {r.get("exc")}: {r.get("msg")}', {'table': c}, 'a table', r, call)
+        return
+    if r['shape'] != [c['ss'], c['n'], len(c['names'])] or 'columns' not in r:
+        rep('C11/table/shape', f'generate_draws returned shape {r["shape"]}', {'table': c}, [c['ss'], c['n'], len(c['names'])],
+            r['shape'], call)
+        return
+    for i, nm in enumerate(c['names']):
+        key = decl[nm]
+        rec = recs[key]
+
+        def rep2(k, what, wit, expected=None, observed=None, how=None, nm=nm, key=key, i=i):
+            k2 = k if k.startswith('C11/quantile/') else k.replace('C11/', 'C11/table/', 1)
+            rep(k2, f'Database.generate_draws: column {i} (variable "{nm}", declared {key}) does not hold a {key} series -- ' + what,
+                {'table': c, 'variable': nm, 'declared': key, 'column': i}, expected, observed,
+                call + f'[:, :, {i}]')
+
+        r2 = {'ok': True, 'descr': rec['descr'], 'shape': [c['ss'], c['n']], 'rows': r['columns'][i],
+              'rec': {'uniform': [], 'shuffle': [], 'wichura': [], 'shuffle_ok': True}}
+        oracle_type_case(ctx, rep2, ref, rec, {'key': key, 'ss': c['ss'], 'n': c['n'], 'seed': c['seed']}, r2, {})
+
+
+def stream_table(ctx, rep, ref, cat):
+    st = ctx.stream('table', 'Database.generate_draws with 2-3 draw variables of different native types (at least one Halton type) '
+                    'whose dict insertion order differs from the order of `names` (sorted, or another order): each column is '
+                    'checked against the type declared for ITS name -- shape, support, antithetic mirror, exact Halton values of '
+                    'the advertised base/skip (quantiles of them for NORMAL_HALTON), MLHS strata; non-trivial = all')
+    cases = gen_tables(ctx, cat)
+    res = run_impl(ctx, 'table', cases, per=max(1, len(cases) // 8 + 1))
+    for c, r in zip(cases, res):
+        st.record(c)
+        check_table(ctx, rep, ref, cat, c, r)
 
 
 # =====================================================================================
@@ -1408,6 +1603,7 @@ def run(ctx):
     lap('build')
     rep = Reporter(ctx)
     ref = AS241()
+    extracted = cat is not None
     if cat is None:
         # the table cannot be read any more: fall back on the live dictionary for the oracles
         cat = fallback_catalogue(ctx)
@@ -1422,6 +1618,8 @@ def run(ctx):
         stream_database(ctx, rep, cat)
         lap('database')
     stream_halton(ctx, rep)
+    stream_histories(ctx, rep, ref, cat, coq=extracted)
+    stream_table(ctx, rep, ref, cat)
     lap('halton')
     stream_mlhs(ctx, rep)
     lap('mlhs')
@@ -1478,6 +1676,22 @@ def _replay(ctx, path):
         cat, _, _ = extract()
     except Untranslatable:
         cat = fallback_catalogue(ctx)
+    if 'history' in wit:
+        steps = wit['history']
+        h = run_impl(ctx, 'history', [{'steps': steps}])[0]
+        st = ctx.stream('halton', 'replay')
+        check_history(ctx, rep, ref, cat, st, Batch(ctx, 'replay'), 0, steps, h)
+        bad = list(ctx.violations)
+        print(json.dumps({'history': [describe_step(s) for s in steps], 'still_fails': bool(bad),
+                          'violations': [v['key'] for v in bad]}))
+        return 1 if bad else 0
+    if 'table' in wit:
+        c = wit['table']
+        r = run_impl(ctx, 'table', [c])[0]
+        check_table(ctx, rep, ref, cat, c, r)
+        bad = list(ctx.violations)
+        print(json.dumps({'table': c, 'still_fails': bool(bad), 'violations': [v['key'] for v in bad]}))
+        return 1 if bad else 0
     if 'u' in wit and 'key' not in wit:
         r = run_impl(ctx, 'quantile', [{'us': [float(wit['u']).hex()]}])[0]
         z = float.fromhex(r['z'][0]) if r.get('ok') else float('nan')
